@@ -11,6 +11,7 @@ static const double EPS = 2.220446049250313e-16;
 static Outcome runCase(const KV& c)
 {
     Outcome o;
+    setVectorScaleExp(c, o);
     ProblemSpec p     = ProblemSpec::get(c);
     const int threads = (int)c.getI("threads");
     const bool probe  = c.getI("probe", 0) != 0;
@@ -254,6 +255,7 @@ static KV genCase()
     c.putI("level_depth", rweighted({3, 1, 1}));
     c.putI("x_kind", rweighted({4, 3, 1, 1, 1, 1}));
     c.putU("x_seed", rseed());
+    c.putI("vec_scale_exp", rpick({0, 0, 0, 0, 0, 0, -300, -100, 100, 300}));
     c.putI("y_kind", rweighted({4, 3, 1, 1, 1, 1}));
     c.putU("y_seed", rseed());
     c.putI("probe", (p.nr() * p.ntheta() <= 600 && rint(0, 2) == 0) ? 1 : 0);
